@@ -36,24 +36,20 @@ def sb_atoms(b, acc=None):
     return acc
 
 
-def build_query(axioms, pcs, goal, extra_text=(), all_atoms=True):
-    """assert axioms (relevant ones), pcs and goal (a SymBool that should be UNSAT for the claim to hold;
-    pass None for a pure reachability twin).  Returns SMT-LIB text and the list of variable names used."""
-    core = list(pcs) + ([goal] if goal is not None else [])
-    vars_ = set()
+def build(axioms, pcs, goal_text=None, goal_vars=(), goal_atoms=(), atoms_nonzero=True, extra_text=()):
+    """SMT-LIB text: relevant axioms + (optionally) every divisor atom non-zero + path condition + goal_text.
+    goal_text is the NEGATED claim (None for a reachability twin).  Returns (text, variable names)."""
+    core = list(pcs)
+    vars_ = set(goal_vars)
     for b in core:
         sb_vars(b, vars_)
-    # denominators: every atom seen so far on this path is a divisor somewhere -> assumed non-zero
-    atom_ax = []
-    atoms = set()
+    atoms = set(goal_atoms)
     for b in core + list(axioms):
         sb_atoms(b, atoms)
-    if all_atoms:
+    pool = [(sb_vars(b), b.smt()) for b in axioms]
+    if atoms_nonzero:
         atoms |= set(P._ATOMS)
-    for a in atoms:
-        atom_ax.append((a.vars(), "(not (= %s 0.0))" % a.smt()))
-    ax = [(sb_vars(b), b.smt()) for b in axioms]
-    pool = ax + atom_ax
+        pool += [(a.vars(), "(not (= %s 0.0))" % a.smt()) for a in atoms]
     chosen = []
     changed = True
     remaining = pool
@@ -73,14 +69,26 @@ def build_query(axioms, pcs, goal, extra_text=(), all_atoms=True):
     used = sorted(vars_)
     lines = ["(set-option :produce-models true)"]
     for i in used:
-        lines.append("(declare-const %s Real)" % names[i])
+        nm = names[i]
+        lines.append("(declare-const %s Real)" % nm)
+        if P.var_meta(nm).get('integer'):
+            lines.append("(declare-const %s__int Int)" % nm)
+            lines.append("(assert (= %s (to_real %s__int)))" % (nm, nm))
     for t in extra_text:
         lines.append(t)
     for t in chosen:
         lines.append("(assert %s)" % t)
     for b in core:
         lines.append("(assert %s)" % b.smt())
+    if goal_text is not None:
+        lines.append("(assert %s)" % goal_text)
     return "\n".join(lines) + "\n", [names[i] for i in used]
+
+
+def build_query(axioms, pcs, goal, extra_text=(), all_atoms=True):
+    if goal is None:
+        return build(axioms, pcs, None, atoms_nonzero=all_atoms, extra_text=extra_text)
+    return build(axioms, pcs, goal.smt(), sb_vars(goal), sb_atoms(goal), atoms_nonzero=all_atoms, extra_text=extra_text)
 
 
 # ---------------------------------------------------------------------------
